@@ -130,12 +130,24 @@ func init() {
 			What:   "the REAL logger package (SetupLogger, Warnf, Errorf, Printf; summarised in every other harness) on a model of log.Logger (writer + flags, one line per call): without -log, with -log (Enable + Output, as runner.Run sets it up) and after a second set-up, a warning and an error reach standard error exactly once and exactly as formatted - also when the position text holds %, : or blanks (directory names) -, the error value carries the message, the trace never reaches standard error, and the log file holds all three",
 			Bounds: "3 set-ups x 5 position texts x 3 field names", Assumes: []string{"package log: a Logger writes each message in one piece to its writer, with a time stamp in front when its flags are non-zero"}})
 	}
+	reg(&HarnessSpec{Prop: "C14", Name: "C14OddPath", Replay: "native",
+		What:   "real front half on a copy of skeleton dup that lives in a module whose directory is called 'w:1 %d' (colon, blank, percent sign: the position text file:line:column then holds colons of its own): the type error inside the converter interface is attributed to it and the run is rejected with a positioned diagnostic",
+		Bounds: "skeleton odd/w:1 %d/dup, 2 slot choices", Assumes: []string{aT, aSlots}})
 	reg(&HarnessSpec{Prop: "C14", Name: "C14MainReports", Pkg: ".", Replay: "e2e-cli",
 		What:    "the REAL main() (harness injected into package main by overlay) with flags, positional argument and GOFILE symbolic and every pipeline stage summarised by an arbitrary result/error: whenever the process ends with os.Exit, the status is 1 and a message was written to standard error before - also for failures that never pass through the logger (os.Stat of the input, the import optimiser, the formatter, the write); a run without failure returns normally",
 		Bounds:  "paths <= 3 bytes (SMT strings); all flag valuations; every stage outcome",
 		Assumes: []string{aEnv, "stage summaries as in C15Run"}})
 	reg(&HarnessSpec{Prop: "C14", Name: "C17Selection",
 		What:   "for C14's 'never reports success while dropping a converter-interface method': on skeleton sel every method of every selected converter interface - incl. the methods an interface has by EMBEDDING an interface declared in a sibling file - yields a function (see C17Selection)",
+		Bounds: "skeleton sel", Assumes: []string{aT, aSlots}})
+	reg(&HarnessSpec{Prop: "C09", Name: "C17Selection",
+		What:   "for C09's scoping: a method the converter interface has by embedding an unmarked interface of the same file carries exactly the notations of its own doc comment on top of the CONVERTER interface's defaults; the notations on the embedded interface's doc comment (and the package comment's) are nobody's defaults (see C17Selection)",
+		Bounds: "skeleton sel", Assumes: []string{aT, aSlots}})
+	reg(&HarnessSpec{Prop: "C11", Name: "C17Selection",
+		What:   "for C11's doc forwarding: a method inherited from an unmarked interface of the same file keeps the doc comment it is declared with (its notation lines applied, not forwarded); one declared without doc comment has none (see C17Selection)",
+		Bounds: "skeleton sel", Assumes: []string{aT, aSlots}})
+	reg(&HarnessSpec{Prop: "C08", Name: "C17Selection",
+		What:   "for C08's 'each method of a converter interface yields exactly one function of the same name': incl. the methods an interface has by embedding an interface of the same or of a sibling file, in method-set order (see C17Selection)",
 		Bounds: "skeleton sel", Assumes: []string{aT, aSlots}})
 	reg(&HarnessSpec{Prop: "C14", Name: "C14TypeErrors", Replay: "native",
 		What:   "real front half on skeleton dup, whose converter interface declares a method twice (go/types reports the error and leaves the duplicate out; another, unrelated type error stands elsewhere in the file): the run is rejected with a positioned diagnostic instead of succeeding with a method missing",
